@@ -5,6 +5,7 @@ CONSTANTS
   NoConn = 0
   Listeners <- TraceListeners
   CloseOnShutdown <- TraceCOS
+  ReduceMem = FALSE
   FlushOnStop = TRUE
   IdleWhenDrained = TRUE
   AtomicIdleClose = TRUE
